@@ -609,11 +609,11 @@ def gen_case(rng, pid):
     keep = rng.random() < 0.12
     if pid == "C06":
         if not keep:
-            d = K.neutralise_all(d, K.C06_KNOWN)
+            d = K.neutralise_all(d, K.active(K.C06_KNOWN, "C06"))
     else:
-        d = K.neutralise_all(d, K.C06_KNOWN)
+        d = K.neutralise_all(d, K.active(K.C06_KNOWN, "C06"))
         if not keep:
-            d = K.neutralise_all(d, K.C04_KNOWN)
+            d = K.neutralise_all(d, K.active(K.C04_KNOWN, "C04"))
     text = G.render(d, rng, comments=rng.random() < 0.7)
     return d, text
 
@@ -877,7 +877,7 @@ def unwritable_names(nl):
     return out
 
 
-def c04_run(impl, design, text, how, combo, rng_seed, escape_names=False):
+def c04_run(impl, design, text, how, combo, rng_seed, escape_names=False, keep_undef=False):
     """-> problems (list).  Parsing the *input* is C06's business: a text the reader rejects is no C04 case."""
     import verilog_view as V
     try:
@@ -893,7 +893,12 @@ def c04_run(impl, design, text, how, combo, rng_seed, escape_names=False):
             e.name = "\\" + e.name
     v1 = V.view(nl)
     pr, _ = eval_c04(impl, nl, v1, combo, random.Random(rng_seed))
+    if not keep_undef:
+        pr = [p for p in pr if p[0] != UNDEF_TAG]
     return pr
+
+
+UNDEF_TAG = "roundtrip.port.direction.undefined-becomes-inout"
 
 
 def report_c04(res, impl, design, text, how, combo, rng_seed, pr):
@@ -978,9 +983,10 @@ def report_c04(res, impl, design, text, how, combo, rng_seed, pr):
             return cs
         sh = shapes(cfg)
         out = [c for c in cs if c != K.SIG_C04_ASSIGN]
-        if "desc" in sh:
+        if "desc" in sh and cfg[1] != "flatten":
             out.append(K.SIG_C04_ASSIGN)
-        if "split" in sh or "open" in sh:
+        if "split" in sh or "open" in sh or ("desc" in sh and cfg[1] == "flatten"):
+            # after flatten: pins on several cables, with gaps, or in descending order (a reversed connection inside)
             out.append(K.SIG_C04_ASSIGN_SPLIT)
         return out or None
     _causes = causes
@@ -1296,6 +1302,14 @@ def shard_c04(seed, idx, n_cases, deadline, tier):
                 pr, text2 = eval_c04(impl, nl, v1, combo, random.Random(rs), hold)
                 texts.append((hold.get("_last_opts"), text2, bool(pr) and pr[0][0].startswith("compose.raises")))
                 res.dist("options:%s:%s:%s" % (combo[0], "bb" if combo[1] else "nobb", "defparam" if combo[2] else "inline"))
+                und = [p for p in pr if p[0] == UNDEF_TAG]
+                pr = [p for p in pr if p[0] != UNDEF_TAG]
+                if und:
+                    res.dist("undefined-direction-written-as-inout")
+                    seen = res.__dict__.setdefault("_seen", {})
+                    seen[K.SIG_C04_UNDEF] = seen.get(K.SIG_C04_UNDEF, 0) + 1
+                    if seen[K.SIG_C04_UNDEF] <= 3:
+                        res.spec_failure(K.SIG_C04_UNDEF, dict(pack(d, text), transform=how, options=list(combo), rng=rs), und[0][1])
                 if pr:
                     res.dist("P-failed")
                     seen = res.__dict__.setdefault("_seen", {})
@@ -1392,6 +1406,10 @@ def shard_bundled_c04(seed, idx, files, deadline, tier):
                     if how == "none" and text2 is not None and len(text) < 400_000:
                         o3 = hold.get("_last_opts")
                         corr_c04_text(res, drv, nl_t, o3, text2, None, dict(inp, options=[o3[0], o3[1], o3[2]]))
+                    und = [p for p in pr if p[0] == UNDEF_TAG]
+                    pr = [p for p in pr if p[0] != UNDEF_TAG]
+                    if und:
+                        res.spec_failure(K.SIG_C04_UNDEF, dict(inp, transform=how, options=list(combo), rng=rs), und[0][1])
                     if pr:
                         sig = pr[0][0]
                         if how == "clone" and top_external(nl_t):
@@ -1495,8 +1513,12 @@ def run_input(res, impl, pid, inp, drv=None):
             known = None
             for combo in combos:
                 rs = inp.get("rng", 1)
-                pr = c04_run(impl, design, text, how, combo, rs, bool(inp.get("escape_names")))
+                pr = c04_run(impl, design, text, how, combo, rs, bool(inp.get("escape_names")), keep_undef=True)
                 res.case(stable_hash([inp, combo]), True)
+                und = [p for p in (pr or []) if p[0] == UNDEF_TAG]
+                pr = [p for p in (pr or []) if p[0] != UNDEF_TAG]
+                if und:
+                    res.spec_failure(K.SIG_C04_UNDEF, dict(inp), und[0][1])
                 if pr:
                     sigs = report_c04(res, impl, design, text, how, combo, rs, pr)
                     known = sigs[0] if sigs else None
@@ -1657,7 +1679,8 @@ def _describe(ctx):
                     "bundled .v files, optionally transformed by uniquify / uniquify+flatten / clone; composed with definition_list in "
                     "{none, all, subset containing top} x write_blackbox x defparam; re-parsed. distinct = distinct (text, transform)")
         ctx.assumptions = [
-            "UNDEFINED port direction of an inferred black box is written as inout (documented); compared as equal to INOUT",
+            "a port without direction (inferred black box) is written `inout` and comes back INOUT: reported as the pinned finding compose-then-parse.port-without-direction-comes-back-inout, then compared as INOUT so that nothing else hides behind it",
+            "two elements whose names are n and \\n (same Verilog identifier) are reported as a collision before anything is compared",
             "definitions that are not written (write_blackbox=False, definition_list subset) come back as inferred black boxes: only the connected pins of their instances are compared",
             "assign instances are compared as a multiset of (width, bits joined pin by pin); their generated names are not",
         ]
